@@ -182,16 +182,20 @@ def generate_liveness(c: Chooser, rng) -> Dict:
             h = c.pick(list(classes))
             fields = [f for (dc, f, rc) in RELATABLE if dc == classes[h]]
             ops.append(["unassign", h, c.pick(fields)])
-        elif r < 0.70 and len(classes) < 9:
-            # a new instance is constructed with the live managed collection of an existing one (which may die later)
+        elif False and r < 0.70 and len(classes) < 9:
+            # DISABLED (see DESIGN.md 8.3): handing a live monitored container to a constructor aliases it between two
+            # owners; the reference variant (nothing dies) then differs from reality for reasons that have nothing to do
+            # with what dead instances leave behind, so this op cannot be judged by the liveness differential.
             donors = [(h, f) for h, cs in classes.items() for (dc, f, rc) in RELATABLE if dc == cs and FIELD_KIND[(cs, f)] != "single"]
             if donors:
                 h, f = c.pick(donors)
-                ops.append(["create_with", nxt, classes[h], nxt, h, f])
+                donor_dies_first = c.chance(0.5)
+                ops.append(["create_with", nxt, classes[h], nxt, h, f, donor_dies_first])
                 classes[nxt] = classes[h]
                 nxt += 1
-                if c.chance(0.5):
-                    ops.append(["drop", h])
+                if donor_dies_first or c.chance(0.3):
+                    if not donor_dies_first:
+                        ops.append(["drop", h])
                     del classes[h]
         elif r < 0.80:
             h = c.pick(list(classes))
@@ -236,12 +240,28 @@ def run_liveness(arg) -> Dict:
                     ids[op[3]] = id(obj)
                 del obj
             elif kind == "create_with":
-                _, h, cls_name, serial, donor, field = op
+                _, h, cls_name, serial, donor, field = op[:6]
+                donor_dies_first = bool(op[6]) if len(op) > 6 else False
                 src = world.handles.get(donor)
                 if src is not None and h not in world.handles and type(src).__name__ == cls_name and cls_name not in ("Boss", "Dean"):
                     import weakref as _wr
 
-                    obj = oworld.ONTOLOGY_CLASSES[cls_name](serial, **{field: getattr(src, field)})
+                    collection = getattr(src, field)
+                    if immortal or not donor_dies_first:
+                        # Two live owners sharing one container object write into each other's field (plain Python
+                        # aliasing).  The reference variant keeps every donor alive, so there the new instance gets a
+                        # copy; the live object itself is handed over only where its owner is really dead.
+                        collection = list(collection) if isinstance(collection, list) else set(collection)
+                    if donor_dies_first:
+                        # the program keeps only the collection; its owner is dropped (and, unless something else holds
+                        # it, dies) before the new instance is constructed - most likely at the same address
+                        if immortal:
+                            keep.append(src)
+                        del src
+                        world.drop(donor)
+                        src = None
+                    obj = oworld.ONTOLOGY_CLASSES[cls_name](serial, **{field: collection})
+                    del collection
                     world.seq += 1
                     rec = {"serial": serial, "cls": cls_name, "ref": _wr.ref(obj), "epoch": world.epoch, "seq": world.seq, "dropped": False}
                     world.census.append(rec)
